@@ -3,8 +3,9 @@
 `python3 tools/seed_table.py --write` replaces the block between the SEED_TABLE markers in DESIGN.md."""
 import json, os, re, sys, glob
 V = os.path.dirname(os.path.dirname(os.path.abspath(__file__)))
-KNOWN = {"mir:simplified_json_from_root/one-bucket-per-name"}      # recorded known finding, present on the unchanged tree
-RETIRED = {"C11-c"}        # neutralised by a later fix: kept for the record
+KNOWN = {"mir:simplified_json_from_root/one-bucket-per-name", "mir:rulegen/generated-rule-holds-on-its-source",
+         "mir:rulegen/distinct-types-distinct-rule-names"}      # recorded known finding, present on the unchanged tree
+RETIRED = {"C11-c", "C02-i"}        # neutralised by a later fix: kept for the record
 NOTES = json.load(open(os.path.join(V, "seeded", "notes.json"))) if os.path.exists(os.path.join(V, "seeded", "notes.json")) else {}
 rows = []
 for mp in sorted(glob.glob(os.path.join(V, "seeded", "C*", "meta.json"))):
@@ -17,7 +18,7 @@ for mp in sorted(glob.glob(os.path.join(V, "seeded", "C*", "meta.json"))):
         res = d["verdict"].split(" (")[0]
         rows.append((m["id"], short, res, ", ".join(checks)[:160] or "-", NOTES.get(m["id"], "")))
     elif m["id"] in RETIRED:
-        rows.append((m["id"], short, "exit 0 (expected: the change no longer alters behaviour)", "-", NOTES.get(m["id"], "")))
+        rows.append((m["id"], short, "retired (superseded / neutralised by a fix)", "-", NOTES.get(m["id"], "")))
     else:
         rows.append((m["id"], short, "not run yet / MISSED", "-", NOTES.get(m["id"], "")))
 out = ["| seed | where (from meta.json) | `./check <prop> --tier quick` | failing checks | when the catching check was written |", "|---|---|---|---|---|"]
